@@ -55,7 +55,7 @@ type Property struct {
 	Explanation string
 	NotDecided  string
 	Assumptions []string
-	Floors      map[string]int // model-level counts that must be reached (vacuity guard)
+	Floors      map[string]int    // model-level counts that must be reached (vacuity guard)
 	Controls    map[string]string // overlay files (path relative to the repo -> source) with deliberately violating code
 	// Thorough, when set, runs the deeper exploration of the thorough tier (mutation sweep) and
 	// records its results into the outcome.
@@ -118,7 +118,9 @@ func (c *Ctx) ArmedPkg(path string) bool { return c.Scope[path] }
 func (c *Ctx) Inc(name string, n int) { c.Count[name] += n }
 
 // Note adds a free-text line to the evidence.
-func (c *Ctx) Note(format string, args ...any) { c.Notes = append(c.Notes, fmt.Sprintf(format, args...)) }
+func (c *Ctx) Note(format string, args ...any) {
+	c.Notes = append(c.Notes, fmt.Sprintf(format, args...))
+}
 
 // ---------------------------------------------------------------------------
 // known findings
